@@ -38,6 +38,14 @@ def impl_fromutc(z, us):
     return _guard(f)
 
 
+def impl_fromutc_foreign(z, us, other):
+    """the public fromutc on a datetime attached to ANOTHER tzinfo (or none): the decorator's ValueError"""
+    def f():
+        w = z.fromutc(_dt(us).replace(tzinfo=other))
+        return "%d,%d" % (_us(w.replace(tzinfo=None) - EPOCH), w.fold)
+    return _guard(f)
+
+
 def impl_file_wall(z, us):
     out = [_guard(lambda: "%d" % bool(z.is_ambiguous(_dt(us))))]
     for fold in (0, 1):
@@ -72,6 +80,17 @@ def impl_range_wall(z, us):
         d = _dt(us, fold)
         out.append(",".join([_guard(lambda: "%d" % bool(z._isdst(d))), _guard(lambda: "%d" % _us(z.utcoffset(d))),
                              _guard(lambda: "%d" % _us(z.dst(d))), _guard(lambda: _name(z.tzname(d)))]))
+    return ";".join(out)
+
+
+def impl_local_wall(z, us):
+    """tzlocal methods (translated by harness/translate_obj.py); must run while TZ is set"""
+    out = [_guard(lambda: "%d" % bool(z.is_ambiguous(_dt(us))))]
+    for fold in (0, 1):
+        d = _dt(us, fold)
+        out.append(",".join([_guard(lambda: "%d" % int(z._naive_is_dst(d))), _guard(lambda: "%d" % int(z._isdst(d))),
+                             _guard(lambda: "%d" % _us(z.utcoffset(d))), _guard(lambda: "%d" % _us(z.dst(d))),
+                             _guard(lambda: _name(z.tzname(d)))]))
     return ";".join(out)
 
 
@@ -139,8 +158,19 @@ def validate(ctx, quick_zones=14, quick_syn=12):
         ups, wps = spread(ups, rng), spread(wps, rng)
         hdr = "%d %d %d %s" % (std, dst, has, Z.ilist(tbl))
         reqs.append("tzgen.range.fromutc %s %s" % (hdr, Z.ilist(ups))); exp.append("ok " + " ".join(impl_fromutc(z, u) for u in ups)); meta.append((name, ups))
+        if ((ctx.lean.gen_report.get("kernels") or {}).get("TzObjKernels") or {}).get("ok"):
+            import datetime as _d
+            few = ups[:6]
+            reqs.append("tzgen.range.fromutc_pub %s %s 1" % (hdr, Z.ilist(few))); exp.append("ok " + " ".join(impl_fromutc(z, u) for u in few)); meta.append((name, few))
+            reqs.append("tzgen.range.fromutc_pub %s %s 0" % (hdr, Z.ilist(few)))
+            exp.append("ok " + " ".join(impl_fromutc_foreign(z, u, (None, _d.timezone.utc)[i % 2]) for i, u in enumerate(few))); meta.append((name, few))
         abbrs = "%s %s" % (_name(z._std_abbr or ""), _name(z._dst_abbr or ""))
         reqs.append("tzgen.range.wall %s %s %s" % (hdr, Z.ilist(wps), abbrs)); exp.append("ok " + " ".join(impl_range_wall(z, w) for w in wps)); meta.append((name, wps))
+    _local_requests(ctx, rng, thorough, reqs, exp, meta)
+    _run(ctx, reqs, exp, meta)
+
+
+def _local_requests(ctx, rng, thorough, reqs, exp, meta):
     # `_tzinfo._fromutc/_fold_status/fromutc` through tzlocal (which overrides is_ambiguous: dynamic dispatch)
     import os, time
     for s in Z.LOCAL_TZS[:3]:
@@ -148,13 +178,19 @@ def validate(ctx, quick_zones=14, quick_syn=12):
         ref = tz.tzstr(s)
         years = Z.YEARS[1:]
         std, dst, has, tbl = Z.range_zone_params(ref, range(min(years) - 1, max(years) + 2))
-        ups, _ = Z.range_probes(ref, years)
+        ups, lwps = Z.range_probes(ref, years)
         ups = spread(ups[::6] if not thorough else ups, rng)
+        lwps = spread(lwps[::6] if not thorough else lwps, rng)
+        obj_ok = ((ctx.lean.gen_report.get("kernels") or {}).get("TzObjKernels") or {}).get("ok")
         old = os.environ.get("TZ")
         os.environ["TZ"] = s; time.tzset()
         try:
             zl = tz.tzlocal()
             e = "ok " + " ".join(impl_fromutc(zl, u) for u in ups)
+            if obj_ok:
+                reqs.append("tzgen.local.wall %d %d %d %s %s %s %s" % (std, dst, has, Z.ilist(tbl), Z.ilist(lwps),
+                                                                 _name(time.tzname[0]), _name(time.tzname[1])))
+                exp.append("ok " + " ".join(impl_local_wall(zl, w) for w in lwps)); meta.append(("tzlocal:" + s, lwps))
         finally:
             if old is None:
                 os.environ.pop("TZ", None)
@@ -162,6 +198,9 @@ def validate(ctx, quick_zones=14, quick_syn=12):
                 os.environ["TZ"] = old
             time.tzset()
         reqs.append("tzgen.local.fromutc %d %d %d %s %s" % (std, dst, has, Z.ilist(tbl), Z.ilist(ups))); exp.append(e); meta.append(("tzlocal:" + s, ups))
+
+
+def _run(ctx, reqs, exp, meta):
     got = ctx.driver(reqs)
     n = 0
     for q, e, g, (name, pts) in zip(reqs, exp, got, meta):
@@ -178,3 +217,13 @@ def validate(ctx, quick_zones=14, quick_syn=12):
         else:
             ctx.traces += len(pts)
     ctx.count("tz_translator_validation_cases", n)
+
+
+def validate_local(ctx):
+    """only the tzlocal part (C08)"""
+    rep = (ctx.lean.gen_report.get("kernels") or {}).get("TzKernels") or {}
+    if not rep.get("ok"):
+        return
+    reqs, exp, meta = [], [], []
+    _local_requests(ctx, ctx.subrng("tzgen-local"), ctx.tier == "thorough" or ctx.escalated, reqs, exp, meta)
+    _run(ctx, reqs, exp, meta)
